@@ -26,6 +26,10 @@ TRUSTED = ["np.argmax returns the first maximum; RandomState.choice(replace=Fals
 VALS = [float("nan"), float("-inf"), -2.0, -1.0, -0.0, 0.0, 0.25, 1.0, 1.0, 2.5, float("inf")]
 FINITE = [float("nan"), -2.0, -1.0, -0.0, 0.0, 0.25, 0.5, 1.0, 1.0, 2.5, 3.0]
 NONNEG = [float("nan"), 0.0, 0.0, 0.25, 0.5, 1.0, 1.0, 2.5, 3.0]
+# near-ties: unequal doubles that differ by a few ulps / 1e-12 .. 1e-6 relative (an "almost equal" comparison
+# in the implementation would treat them as tied)
+NEAR = [float("nan"), 0.3, 0.1 + 0.2, float(np.nextafter(0.3, 1.0)), 1.0, float(np.nextafter(1.0, 2.0)), 1.0 + 1e-12, 1.0 + 1e-9,
+        1.0 - 1e-7, -1.0, float(np.nextafter(-1.0, 0.0)), 1e-300, 2e-300, 0.0, -0.0, 5e-324]
 
 
 class SpyRS(np.random.RandomState):
@@ -229,7 +233,8 @@ def correspond(ctx):
     for _ in range(n_rand):
         kind = rng.random()
         seed = rng.randrange(2**31 - 1)
-        pool = VALS if rng.random() < 0.7 else [float("nan"), 1.0, 1.0, 1.0, 0.0]
+        r0 = rng.random()
+        pool = VALS if r0 < 0.55 else ([float("nan"), 1.0, 1.0, 1.0, 0.0] if r0 < 0.75 else NEAR)
         if kind < 0.35:
             n = rng.randint(1, 9)
             a = [rng.choice(pool) for _ in range(n)]
@@ -244,6 +249,10 @@ def correspond(ctx):
             vals = (FINITE if rng.random() < 0.85 else VALS) if method == "max" else (NONNEG if rng.random() < 0.75 else FINITE)
             if rng.random() < 0.15:
                 vals = [float("nan"), 1.0, 1.0, 0.0, 1.0]
+            elif rng.random() < 0.2:
+                # proportional mode divides by the total mass: tiny values underflow to probability 0.0, which exact
+                # arithmetic (the model) cannot exhibit, so they are kept out of that mode
+                vals = NEAR if method == "max" else [v for v in NEAR if not (v < 0) and not (0 < v < 1e-200)]
             if two_d:
                 r, c = rng.randint(1, 3), rng.randint(1, 3)
                 u = [[rng.choice(vals) for _ in range(c)] for _ in range(r)]
